@@ -27,12 +27,57 @@ from gsv import common, gt, validity
 from gsv import rulesym as R
 
 
-def vectorize_otypes(f):
-    """otypes of the numpy.vectorize object the real loader builds for rule f (None = inferred)"""
+_LOADED = {}
+
+
+def production_functions(date):
+    """the function dictionary exactly as compute_taxes_and_transfers builds it for this date (real
+    load_and_check_functions on the environment's functions): the wrappers that production calls"""
+    if date not in _LOADED:
+        from _gettsim.config import DEFAULT_TARGETS, TYPES_INPUT_VARIABLES
+        from _gettsim.functions_loader import load_and_check_functions
+        P, F = gt.env(date)
+        try:
+            fno, _ = load_and_check_functions(functions_raw=F, targets=list(DEFAULT_TARGETS), data_cols=list(TYPES_INPUT_VARIABLES),
+                                              aggregate_by_group_specs={}, aggregate_by_p_id_specs={})
+        except Exception:   # noqa: BLE001 -- e.g. a default target missing at an early date: fall back per rule
+            fno = {}
+        _LOADED[date] = fno
+    return _LOADED[date]
+
+
+def production_wrapper(f, date, name):
+    """the vectorised wrapper production calls for rule f (loader's own dictionary); a fresh real wrapper otherwise"""
     from _gettsim.functions_loader import _vectorize_func
-    w = _vectorize_func(f)
-    cv = inspect.getclosurevars(w).nonlocals
-    vf = cv.get("func_vec")
+    w = production_functions(date).get(name) if (date is not None and name is not None) else None
+    if w is not None:
+        try:
+            vf = inspect.getclosurevars(w).nonlocals.get("func_vec")
+        except TypeError:
+            vf = None
+        if isinstance(vf, numpy.vectorize) and getattr(vf.pyfunc, "__code__", None) is getattr(f, "__code__", None):
+            return w
+    return _vectorize_func(f)
+
+
+def vectorize_otypes(f, date=None, name=None):
+    """otypes of the numpy.vectorize object that production uses for rule f (None = inferred from the first row):
+    taken from the wrapper in the loader's own function dictionary; only if the rule is not in it (or no date is
+    given) from a fresh call of the real _vectorize_func"""
+    from _gettsim.functions_loader import _vectorize_func
+    w = production_functions(date).get(name) if (date is not None and name is not None) else None
+    vf = None
+    if w is not None:
+        try:
+            vf = inspect.getclosurevars(w).nonlocals.get("func_vec")
+        except TypeError:
+            vf = None
+        if isinstance(vf, numpy.vectorize) and getattr(vf.pyfunc, "__code__", None) is not getattr(f, "__code__", None):
+            vf = None          # another implementation is registered under that name at this date
+    if not isinstance(vf, numpy.vectorize):
+        w = _vectorize_func(f)
+        cv = inspect.getclosurevars(w).nonlocals
+        vf = cv.get("func_vec")
     if not isinstance(vf, numpy.vectorize):
         raise common.HarnessError("cannot find the numpy.vectorize object in wrapper_vectorize_func")
     if vf.otypes is None:
@@ -82,7 +127,7 @@ def analyse_rule(ck, name, f, P, date, done, rnd):
     if not (R.is_sym(v) or R.pytype(v) is not None):
         ck.not_encoded[pyname] = "no scalar result"
         return
-    ot = vectorize_otypes(f)
+    ot = vectorize_otypes(f, date, name)
     term = R.lift(v)[0]
     sig = (pyname, str(term), str(R.tyguards(v)), ot)
     if sig in done:
@@ -174,7 +219,7 @@ def wrapper_value_equation(ck, name, f, P, date, syms, v, term, pre, noerr, r1, 
     from gsv.colsym import SymArray
     if not syms:
         return
-    w = _vectorize_func(f)
+    w = production_wrapper(f, date, name)
     kw = {a: P[a[:-7]] for a in inspect.signature(f).parameters if a.endswith("_params")}
     arrs = {a: SymArray([R.sym_for(a + "@1", s.ty), R.sym_for(a + "@2", s.ty)], s.ty) for a, s in syms.items()}
     old = colsym.VECTORIZE_STRICT
